@@ -2,7 +2,7 @@ use super::{ContextPtr, SlotChain};
 use crate::logging;
 use crate::{Error, Result};
 use std::sync::Arc;
-use std::sync::{RwLock, Weak};
+use crate::vsync::{RwLock, Weak};
 use std::vec::Vec;
 
 type ExitHandler = Box<dyn Send + Sync + Fn(&SentinelEntry, ContextPtr) -> Result<()>>;
